@@ -11,7 +11,12 @@ RULE = ('the -O3 release library (assembly included) is run under valgrind memch
         'plaintext, password, fed entropy buffer and every byte returned by getrandom (masking randomness, PRNG seeds); public values '
         '(lengths, nonce, AD, the tag given to a verifier) stay defined; accept/reject results are declassified by the harness before '
         'use.  Any "conditional jump depends on uninitialised value" or "use of uninitialised value" (address computation) report is a '
-        'violation (witness = the valgrind stack).  Workload: 15 AEAD families (one-shot, incremental, masked with key masking and '
+        'violation (witness = the valgrind stack), with one exception that the property itself makes: a report inside a decrypt / verify '
+        'operation (the harness announces every operation in the valgrind log) may be the branch on the public accept/reject outcome.  Such '
+        'a report goes to the OUTCOME ARBITER: for sampled public shapes of every family where it occurs, one valgrind-lackey process '
+        'runs the operation 57 times (3 secret sets x {genuine, one tag bit wrong in byte 0..15, all bytes wrong, first+last wrong}); '
+        'the instruction + data address traces of all executions with the same outcome must be identical, otherwise the report is a '
+        'violation (witness = two executions with different traces); if identical it is recorded as declassified.  Workload: 15 AEAD families (one-shot, incremental, masked with key masking and '
         'randomize, SIV, ISAP incl. key set-up and save/load) x (adlen, mlen) in a 10x10 boundary grid x {encrypt, decrypt genuine, '
         'decrypt with the tag wrong in byte 0 / 7 / 15, wrong ciphertext}; Prf, Prf-fixed, PrfShort, Mac, Mac-verify (tag wrong at 4 '
         'positions), incremental Prf; HMAC(A), KMAC(A), KDF(A), HKDF(A) one-shot + incremental, both PBKDF2s over key/input/output '
@@ -26,16 +31,24 @@ ERR = re.compile(r'^==\d+== (Conditional jump or move depends on uninitialised v
 FRAME = re.compile(r'^==\d+==\s+(?:at|by) 0x[0-9A-F]+: (\S+) \((?:in )?([^)]*)\)')
 
 
+OPMARK = re.compile(r'^\*\*\d+\*\* VFOP (\d+) (\S+) (\S+)')
+
+
 def parse_logs(paths):
-    """-> list of (kind, [frames])"""
+    """-> list of [kind, [frames], (case, family, opclass) or None]; the harness announces every operation with a VFOP line"""
     out = []
     for p in paths:
         cur = None
+        op = None
         with open(p, errors='replace') as f:
             for line in f:
+                m = OPMARK.match(line)
+                if m:
+                    op = (int(m.group(1)), m.group(2), m.group(3))
+                    continue
                 m = ERR.match(line.rstrip())
                 if m:
-                    cur = [m.group(1), []]
+                    cur = [m.group(1), [], op]
                     out.append(cur)
                     continue
                 if cur is not None:
@@ -60,6 +73,130 @@ def run_under_memcheck(ctx, b, exe, name, extra_args, cases, shards):
 # instruction records in between ignored); valgrind's own "==pid==" lines are dropped
 AWK_AFTER_MARKER = ('/^==/ {next} started {print; next} /^ S / { if ($2 == prev) cnt++; else { cnt = 1; prev = $2 } if (cnt >= 10) started = 1; next } '
                     '/^I/ {next} { cnt = 0; prev = "" }')
+
+
+def arbiter_run(scratch, seed, bname, exe, idx, secfile):
+    """One lackey process for one public shape (see h_ct.c, arb mode) -> dict(status, ...).
+    status: 'same' (all segments with the same outcome have identical instruction+data traces), 'differs', 'inconclusive'."""
+    import hashlib
+    import subprocess
+    outf = os.path.join(scratch, 'arb.%s.%d.out' % (bname.replace('/', '_'), idx))
+    cmd = ['valgrind', '--tool=lackey', '--trace-mem=yes', '--log-fd=3', exe, '--seed', str(seed), '--only', str(idx), '--build', bname, '--arg', 'arb=' + secfile]
+    # the trace (fd 3) is streamed through a pipe; the harness's own stdout goes to a small file.  The harness prints the
+    # marker addresses before the first segment, but we only learn them afterwards - so segments are cut on the two most
+    # frequent 8-byte store targets that are exactly 8 bytes apart... simpler: the harness is run once more without valgrind
+    # tracing? no: the addresses are stable under valgrind (no ASLR for the client), so a cheap first run gets them.
+    env = dict(os.environ, LD_BIND_NOW='1')
+    try:
+        p0 = subprocess.run(['valgrind', '--tool=none', '-q'] + cmd[4:], stdout=subprocess.PIPE, stderr=subprocess.DEVNULL, text=True, timeout=600, env=env)
+    except subprocess.TimeoutExpired:
+        return {'status': 'inconclusive', 'why': 'arbiter address run timed out', 'case': idx}
+    beg = end = fam = None
+    for line in p0.stdout.splitlines():
+        f = line.split('\t')
+        if f[0] == 'A' and len(f) >= 4:
+            beg, end, fam = int(f[1], 16), int(f[2], 16), f[3]
+    if beg is None:
+        return {'status': 'inconclusive', 'why': 'arbiter printed no marker addresses (exit %s)' % p0.returncode, 'case': idx}
+    begs, ends = ' S %08x,8' % beg, ' S %08x,8' % end
+    sh = ' '.join("'%s'" % c for c in cmd) + " 3>&1 1>'%s' 2>/dev/null" % outf
+    segs = []
+    cur = None
+    n_rec = 0
+    pr = subprocess.Popen(['bash', '-c', sh], stdout=subprocess.PIPE, text=True, errors='replace', env=env)
+    try:
+        for line in pr.stdout:
+            line = line.rstrip('\n')
+            if line.startswith('=='):
+                continue
+            if line == begs:
+                cur = [hashlib.sha256(), 0]       # (re)start after every begin-marker store: the segment starts after the last one
+                continue
+            if cur is None:
+                continue
+            if line == ends:
+                if cur[1]:
+                    segs.append((cur[0].hexdigest(), cur[1]))
+                cur = None
+                continue
+            cur[0].update(line.encode() + b'\n')
+            cur[1] += 1
+            n_rec += 1
+        pr.wait(timeout=60)
+    except Exception as e:
+        pr.kill()
+        return {'status': 'inconclusive', 'why': 'arbiter trace run failed: %r' % e, 'case': idx}
+    outcomes = {}
+    a2 = None
+    try:
+        for line in open(outf):
+            f = line.rstrip('\n').split('\t')
+            if f[0] == 'O' and len(f) >= 5:
+                outcomes[int(f[1])] = (int(f[2]), int(f[3]), int(f[4]))
+            elif f[0] == 'A' and len(f) >= 4:
+                a2 = (int(f[1], 16), int(f[2], 16))
+        os.unlink(outf)
+    except OSError:
+        pass
+    if a2 != (beg, end):
+        return {'status': 'inconclusive', 'why': 'marker addresses changed between the two arbiter runs', 'case': idx}
+    if not outcomes:
+        return {'status': 'inconclusive', 'why': 'arbiter produced no operations (exit %s)' % pr.returncode, 'case': idx}
+    if len(segs) != len(outcomes):
+        return {'status': 'inconclusive', 'why': 'found %d trace segments for %d operations' % (len(segs), len(outcomes)), 'case': idx}
+    groups = {}
+    for i, (dig, cnt) in enumerate(segs):
+        groups.setdefault(outcomes[i][0], {}).setdefault(dig, []).append(i)
+    if set(groups) != {0, 1}:
+        return {'status': 'inconclusive', 'why': 'arbiter did not see both outcomes', 'case': idx}
+    res = {'case': idx, 'family': fam, 'segments': len(segs), 'trace_records': n_rec}
+    for oc, dd in groups.items():
+        if len(dd) > 1:
+            # witness: one segment of the majority trace and one that differs, with what distinguishes them
+            alld = sorted(dd.items(), key=lambda kv: -len(kv[1]))
+            a, bb = alld[0][1][0], alld[1][1][0]
+            res.update(status='differs', outcome='accept' if oc else 'reject',
+                       witness={'segment_a': dict(zip(('secret_set', 'tag_variant'), outcomes[a][1:])), 'segment_b': dict(zip(('secret_set', 'tag_variant'), outcomes[bb][1:])),
+                                'distinct_traces_in_outcome_class': len(dd), 'records_a': segs[a][1], 'records_b': segs[bb][1]})
+            return res
+    res['status'] = 'same'
+    return res
+
+
+def arbitrate(ctx, b, exe, pending):
+    """pending: {site: {family: set(cases)}} - tainted branches/addresses reported inside outcome operations.
+    -> (declassified {site: info}, confirmed {site: info}, inconclusive [why])"""
+    import concurrent.futures as cf
+    import random
+    rnd = random.Random(ctx.seed * 7 + 1)
+    secfile = os.path.join(ctx.scratch, 'secrets.arb')
+    if not os.path.exists(secfile):
+        with open(secfile, 'wb') as f:
+            f.write(bytes(rnd.getrandbits(8) for _ in range(1 << 16)))
+    jobs = {}
+    for site, fams in pending.items():
+        for fam, cases in fams.items():
+            cs = sorted(cases)
+            pick = sorted(set([cs[0], cs[-1], rnd.choice(cs)]))
+            for c in pick:
+                jobs.setdefault(c, set()).add(site)
+    order = list(jobs)
+    with cf.ProcessPoolExecutor(max_workers=core.NCPU) as ex:     # processes: the trace is cut and hashed in Python
+        futs = [ex.submit(arbiter_run, ctx.scratch, ctx.seed, b.name, exe, c, secfile) for c in order]
+        results = {c: f.result() for c, f in zip(order, futs)}
+    decl, conf, inconc = {}, {}, []
+    for site in pending:
+        rs = [results[c] for c in jobs if site in jobs[c]]
+        bad = [r for r in rs if r['status'] == 'differs']
+        unk = [r for r in rs if r['status'] == 'inconclusive']
+        if bad:
+            conf[site] = bad[0]
+        elif unk:
+            inconc.append('outcome arbiter for %s on %s: %s' % (site, b.name, unk[0]['why']))
+        else:
+            decl[site] = {'shapes_arbitrated': len(rs), 'segments_compared': sum(r['segments'] for r in rs), 'trace_records': sum(r['trace_records'] for r in rs),
+                          'families': sorted(pending[site])}
+    return decl, conf, inconc
 
 
 def lackey_pairs(ctx, builds, exe_of):
@@ -129,18 +266,41 @@ def run(ctx):
         exe_of[b.name] = exe
         # liveness canary
         errs = run_under_memcheck(ctx, b, exe, 'ct-canary', ['--arg', 'canary'], None, 1)
-        if not any(any(fr[0] == 'vf_ct_canary' for fr in frames) for kind, frames in errs):
+        if not any(any(fr[0] == 'vf_ct_canary' for fr in frames) for kind, frames, _op in errs):
             ctx.inconclusive.append('memcheck did not report the planted secret-dependent branch on %s' % b.name)
             continue
         ctx.counters['canary_detected'] = ctx.counters.get('canary_detected', 0) + 1
         errs = run_under_memcheck(ctx, b, exe, 'ct', [], 3 if ctx.thorough else 1, core.NCPU)
-        for kind, frames in errs:
+        pending, pend_detail = {}, {}
+        for kind, frames, op in errs:
             total_err += 1
             lib = [fr for fr in frames if not fr[1].startswith('h_ct.c') and not fr[1].startswith('common.c') and fr[0] not in ('main',)]
             fn = lib[0][0] if lib else (frames[0][0] if frames else 'unknown')
             k = 'ct:%s:%s' % ('branch' if kind.startswith('Conditional') else 'address' if kind.startswith('Use') else 'syscall', fn)
+            detail = {'build': b.name, 'memcheck': kind, 'stack': ['%s (%s)' % fr for fr in frames[:10]]}
+            if op is not None:
+                detail['operation'] = {'case': op[0], 'family': op[1], 'class': op[2]}
+            if op is not None and op[2] == 'outcome' and not k.startswith('ct:syscall'):
+                # inside a decrypt / verify: the property lets control flow depend on the accept/reject outcome.  Not judged
+                # here: the outcome arbiter decides whether the traces depend on anything else.
+                pending.setdefault(k, {}).setdefault(op[1], set()).add(op[0])
+                pend_detail.setdefault(k, detail)
+                continue
             if not any(v.key == k and v.build is b for v in ctx.violations):
-                ctx.violations.append(Violation('C11', k, {'build': b.name, 'memcheck': kind, 'stack': ['%s (%s)' % fr for fr in frames[:10]]}, build=b, harness='ct'))
+                ctx.violations.append(Violation('C11', k, detail, build=b, harness='ct'))
+        # a site that is also reported in an operation without an outcome is already a violation: nothing to arbitrate
+        for k in [k for k in pending if any(v.key == k and v.build is b for v in ctx.violations)]:
+            del pending[k]
+        if pending:
+            decl, conf, inconc = arbitrate(ctx, b, exe, pending)
+            ctx.inconclusive.extend(inconc)
+            for k, info in conf.items():
+                d = dict(pend_detail[k])
+                d['outcome_arbiter'] = info
+                ctx.violations.append(Violation('C11', k, d, build=b, harness='ct'))
+            for k, info in decl.items():
+                ctx.counters['reports_declassified_by_outcome_arbiter'] = ctx.counters.get('reports_declassified_by_outcome_arbiter', 0) + 1
+                ctx.extra.setdefault('outcome_arbiter_declassified', []).append(dict(info, site=k, build=b.name, memcheck=pend_detail[k]['memcheck'], stack=pend_detail[k]['stack'][:4]))
     if ctx.thorough:
         lackey_pairs(ctx, [b for b in builds if b.ok][:3], exe_of)
     ctx.counters['memcheck_reports'] = total_err
